@@ -122,6 +122,24 @@ def run_case(case):
                 weights["ow"] = int(rng.integers(-10, 11))
         try:
             params = C.make_params({"scaling": "custom" if weights else sc}, spec, weights=weights)
+            if weights and rng.random() < 0.3:
+                # history of the Scaling object: it was created with other weights and used (points mapped to and fro)
+                # before the caller adjusted its weights in place to the ones under test
+                scl0 = params.scaling
+                final = (np.array(scl0.var_weights, copy=True), np.array(scl0.cons_weights, copy=True), int(scl0.obj_weight))
+                scl0.var_weights[:] = final[0] + rng.integers(-3, 4, size=spec.n)
+                scl0.cons_weights[:] = final[1] + rng.integers(-3, 4, size=spec.m)
+                scl0.obj_weight = final[2] + int(rng.integers(-3, 4))
+                try:
+                    T0 = Transformation(prob2, params)
+                    it0 = T0.create_transformed_iterate(np.copy(spec.x0), None if y0 is None else np.copy(y0))
+                    T0.restore_sol(np.copy(it0.x), np.copy(it0.y), np.zeros_like(it0.x))
+                except Exception:
+                    pass
+                scl0.var_weights[:] = final[0]
+                scl0.cons_weights[:] = final[1]
+                scl0.obj_weight = final[2]
+                bump("scaling_objects_adjusted_after_use")
             T = Transformation(prob, params)
         except Exception as ex:
             if type(ex) is Exception and "Equilibration failed" in str(ex):
@@ -278,7 +296,7 @@ def finalize(agg, tier):
         "floors": {"compared_cons": 500, "compared_cons_jac": 500, "compared_lag_hess": 1000,
                    "compared_initial_iterate": 500, "compared_restore": 500, "scaling_custom": 100,
                    "scaling_GradJac": 50, "scaling_KKT": 50, "scaling_Nominal": 50, "points_with_pattern_switch": 300, "policy_const": 200, "policy_memo": 200,
-                   "jacobian_dtype_bool": 40, "jacobian_dtype_float32": 40, "jacobian_dtype_int64": 40, "float32_vectors": 30, "int64_vectors": 30, "specs_with_free_rows": 60},
+                   "jacobian_dtype_bool": 40, "jacobian_dtype_float32": 40, "jacobian_dtype_int64": 40, "float32_vectors": 30, "int64_vectors": 30, "specs_with_free_rows": 40, "scaling_objects_adjusted_after_use": 150},
         "assumptions": ["bit-level oracle: ldexp by integer weights is exact absent over/underflow; cases where the "
                         "scaling over- or underflows are set aside per the statement ('absent overflow')"],
     }
